@@ -196,6 +196,28 @@ func (c *capWriter) Write(p []byte) (int, error) {
 	return len(p), nil
 }
 
+func batchNeedsStrace(b Batch) bool {
+	for _, e := range b.Env {
+		if e == "VSIM_STRACE=1" {
+			return true
+		}
+	}
+	return false
+}
+
+var straceOK = -1
+
+// straceWorks tells whether strace can trace a child here (ptrace may be forbidden).
+func straceWorks() bool {
+	if straceOK < 0 {
+		straceOK = 0
+		if err := exec.Command("strace", "-f", "-qq", "--seccomp-bpf", "-e", "trace=file", "-o", os.DevNull, "true").Run(); err == nil {
+			straceOK = 1
+		}
+	}
+	return straceOK == 1
+}
+
 // wait reaps a worker that has ended by itself.
 func (w *worker) wait() {
 	w.cmd.Wait()
@@ -884,6 +906,13 @@ func RunCheck(spec *CheckSpec) int {
 
 	// 2. seeded search
 	for _, b := range spec.Batches {
+		if batchNeedsStrace(b) && !straceWorks() {
+			// the system-call seam needs ptrace: without it the batch is left out (and said so), the
+			// other batches of the property still decide
+			fmt.Printf("NOTE: batch %s/%s skipped: strace cannot trace in this environment\n", b.Engine, b.Mode)
+			res.PerBatch = append(res.PerBatch, BatchResult{Engine: b.Engine, Mode: b.Mode, Variant: b.Variant, Counts: map[string]int64{}, Note: "SKIPPED (strace unavailable): " + b.Note})
+			continue
+		}
 		nw := b.Workers
 		if nw == 0 {
 			nw = 16
